@@ -2,9 +2,14 @@ package main
 
 import (
 	"bytes"
+	"math/rand"
 	"runtime"
+	"sync"
+	"sync/atomic"
+
 	"errors"
 	"fmt"
+	"github.com/kelindar/column/commit"
 	"os"
 	"time"
 
@@ -20,13 +25,13 @@ import (
 var errInjected = errors.New("injected write failure")
 
 type failWriter struct {
-	buf        bytes.Buffer
-	calls      int
-	failAtCall int // fail the k-th Write call (1-based; 0 = never)
-	budget     int // accept at most this many bytes in total (-1 = unlimited)
-	forever    bool
-	failures   int
-	phaseCopy  bool // set by the yield hook once the recorder is closed (the log copy follows)
+	buf                         bytes.Buffer
+	calls                       int
+	failAtCall                  int // fail the k-th Write call (1-based; 0 = never)
+	budget                      int // accept at most this many bytes in total (-1 = unlimited)
+	forever                     bool
+	failures                    int
+	phaseCopy                   bool // set by the yield hook once the recorder is closed (the log copy follows)
 	failedInState, failedInCopy bool
 }
 
@@ -272,6 +277,22 @@ func runSnapfail(rep *Report, replay string) {
 					if stuck {
 						break
 					}
+					// "transactions commit normally": one transaction writing both columns of a row reads back both
+					// (buffers handed out twice by a pool the failed snapshot corrupted would lose one of them)
+					if shape >= 1 {
+						probeAt := uint32(0)
+						if shape == 3 {
+							probeAt = 9000
+						}
+						wantN, wantS := int32(1000+rep.Cases%1000), fmt.Sprintf("after-%d", rep.Cases)
+						c.QueryAt(probeAt, func(r column.Row) error { r.SetInt32("n", wantN); r.SetString("s", wantS); return nil })
+						var gotN int32
+						var gotS string
+						c.QueryAt(probeAt, func(r column.Row) error { gotN, _ = r.Int32("n"); gotS, _ = r.String("s"); return nil })
+						if gotN != wantN || gotS != wantS {
+							addV(fmt.Sprintf("[%s] after Snapshot returned (err=%v) a transaction writing n=%d s=%q to row %d reads back n=%d s=%q", shapes[si], err, wantN, wantS, probeAt, gotN, gotS), script)
+						}
+					}
 					if shape == 3 && ((rep.Tier != "thorough" && rep.Cases%41 != 0) || (rep.Tier == "thorough" && rep.Cases%13 != 0)) {
 						continue // the full restore comparison of the big collection is sampled
 					}
@@ -334,6 +355,58 @@ func runSnapfail(rep *Report, replay string) {
 		}
 		c.Close()
 	}
+	// failing snapshots beside a running writer on a collection that has a commit log (Options.Writer): whatever
+	// happens to the snapshots, every committed transaction reaches the commit log exactly once
+	{
+		rounds := 60
+		if rep.Tier == "thorough" {
+			rounds = 600
+		}
+		lg := &countLogger{}
+		c := column.NewCollection(column.Options{Capacity: 64, Vacuum: 24 * time.Hour, Writer: lg})
+		c.CreateColumn("n", column.ForInt32())
+		c.CreateColumn("s", column.ForString())
+		offs := []uint32{0, 1, 16384, 16385, 32768}
+		insertMarkers(c, offs...)
+		base := atomic.LoadInt64(&lg.n)
+		var stop int32
+		var acked int64
+		var wg sync.WaitGroup
+		for w := 0; w < 3; w++ {
+			wg.Add(1)
+			go func(w int) {
+				defer wg.Done()
+				for i := 0; atomic.LoadInt32(&stop) == 0; i++ {
+					o := offs[(i+w)%len(offs)]
+					c.QueryAt(o, func(r column.Row) error { r.SetInt32("n", int32(i)); return nil })
+					atomic.AddInt64(&acked, 1)
+				}
+			}(w)
+		}
+		r := rand.New(rand.NewSource(rep.Seed))
+		for i := 0; i < rounds; i++ {
+			w := &failWriter{budget: -1}
+			switch r.Intn(3) {
+			case 0:
+				w.failAtCall = 1 + r.Intn(4)
+			case 1:
+				w.budget = r.Intn(600)
+			}
+			w.forever = r.Intn(2) == 0
+			c.Snapshot(w)
+			rep.Cases++
+		}
+		atomic.StoreInt32(&stop, 1)
+		wg.Wait()
+		if got := atomic.LoadInt64(&lg.n) - base; got != acked {
+			addV(fmt.Sprintf("[writer+log] %d transactions committed beside %d snapshots to failing writers, the collection's commit log received %d commits", acked, rounds, got), []string{"shape writer+log"})
+		}
+		if c.VerifRecording() {
+			addV("[writer+log] the recorder is still installed after the last snapshot returned", []string{"shape writer+log"})
+		}
+		c.Close()
+		rep.count(fmt.Sprintf("writer+log: commits=%d", acked))
+	}
 	outs, err := runLean("codec", []Case{{Name: "snapres", Lines: lines}})
 	if err != nil {
 		rep.Violations = append(rep.Violations, Violation{Property: rep.Property, Kind: "correspondence", Clause: "lean driver failed: " + err.Error()})
@@ -346,6 +419,11 @@ func runSnapfail(rep *Report, replay string) {
 	rep.Lines = len(lines)
 	rep.Rule = "for an empty, a one-chunk, a three-chunk collection, a collection whose single chunk exceeds the 1 MB s2 block (the destination is written to in the middle of a chunk), and the one-/three-chunk collections with a transaction committing while the snapshot is written (non-empty recorded log): the destination writer fails at every write call index k (1..calls+1) and at byte budgets n (every n for small snapshots / thorough tier, ~150 evenly spaced otherwise), fail-once and fail-forever; after every call: error iff the writer failed, recorder released, /proc/self/fd and the private TMPDIR unchanged, and (sampled; always for the big chunk) a write to every chunk commits within 10 s, an insert commits and a healthy snapshot restores to the same state; a second snapshot during a running one is refused without leak; each call's observed (recorder, fd delta, temp delta, error) is compared with the Lean resource model; non-trivial = calls in which the writer actually failed"
 }
+
+// countLogger counts the commits a collection hands to its commit log
+type countLogger struct{ n int64 }
+
+func (l *countLogger) Append(commit.Commit) error { atomic.AddInt64(&l.n, 1); return nil }
 
 func b2i(b bool) int {
 	if b {
